@@ -191,6 +191,17 @@ _WHERE = {
             "PYTHONHASHSEED semantics.",
             "TLA+ spec (Determinism) enumerated with TLC; TLC-generated schedules run in real interpreter processes; the "
             "recorded observations validated by TLC trace spec (DetTrace)"),
+    "C20": ("jsxprop", "C20",
+            "TLC enumerates component trees up to the bound (children of every kind, props of every value kind incl. tag / "
+            "component / tagifiable props) and checks the shape of the required React.createElement expression and that "
+            "every dependency at the listed positions is in the metadata to surface; each tree is built as a real "
+            "component, converted three times (tagify / str / tagify) with the whole reachable object graph projected "
+            "before and after, and TLC judges purity (structure unchanged, equal results), the expression read back "
+            "from the emitted script against El(tree), the surfaced dependencies against MetaOf(tree), and allow-lists.",
+            "Trusted: TLC/SANY, El/MetaOf in spec/JsxOps.tla and Struct in spec/HeapOps.tla, the harness's expression "
+            "reader and heap projection, CPython.",
+            "TLA+ spec (Jsx/JsxOps, HeapOps) model-checked with TLC; TLC-generated component trees replayed into the "
+            "code; recorded conversions validated by TLC trace specs (JsxTrace, HeapTrace)"),
 }
 
 NOT_YET = {}
